@@ -226,6 +226,31 @@ def run(chk):
         if r[0] != "ok" or r[1] != want:
             chk.violate("a literally spelled sub-rule operand is not read literally", {"program": t}, "ok " + want, il[:300])
     chk.traces += len(sops)
+    # ---- string operands holding the very characters the look-ahead cut scans for (F63, repaired)
+    st = []
+    for _ in range(800 if thorough else 100):
+        sep = rng.choice([" + ", ", ", " - "])
+        wrapl, wrapr = rng.choice([("", ""), ("(", ")"), ("[", "]")])
+        rule = "    ld %s{x: u8}%s%s{y: u8} => 0x11 @ x @ y" % (wrapl, wrapr, sep)
+        ch = rng.choice(['+', ',', '-', '(', ')', '{', '}', ';', '[', ']', ':', 'a'])
+        y = rng.randrange(256)
+        cm = rng.choice(["", " ;* + *; ", " ;* ( *;"])
+        line = "ld %s\"%s\"%s%s%s%d" % (wrapl, ch, wrapr, cm, sep, y)
+        st.append(("#ruledef\n{\n%s\n}\n%s\n" % (rule, line), "11%02x%02x" % (ord(ch), y)))
+    tops = [fw.asm_op([("main.asm", t)]) for t, _ in st]
+    timpl = fw.run_oracle_resilient(tops, "c07t")
+    tmodel = fw.run_model(tops, "c07t", timeout=3000)
+    for (t, hx), a, ml in zip(st, timpl, tmodel):
+        chk.evaluations += 1
+        il = fw.asm_line(a)
+        if il != ml:
+            chk.disagree("string operand:\n%s" % t[-300:], ml[:250], il[:250])
+        r = parse(il)
+        chk.count("string_operand_" + r[0])
+        want = "".join(format(int(c, 16), "04b") for c in hx)
+        if r[0] != "ok" or r[1] != want:
+            chk.violate("a string operand that holds a separator, a bracket or a semicolon changes the match", {"program": t}, "ok " + want, il[:300])
+    chk.traces += len(tops)
     # ---- recorded findings: replay their witnesses
     for k in known.values():
         w = k.get("replay", {})
